@@ -583,8 +583,25 @@ static const std::vector<CatItem> &catalogue()
     return c;
 }
 
+static RCP<const Basic> piecewise_from_seed(uint64_t seed);
+
 std::string hx_run(const std::string &line, std::string &oracle)
 {
+    if (line.compare(0, 3, "pw ") == 0) {
+        // pw <printer> <seed>: a Piecewise rebuilt from its seed (the wire format has no Piecewise)
+        size_t sp = line.find(' ', 3);
+        if (sp == std::string::npos)
+            return "bad-op";
+        std::string which = line.substr(3, sp - 3);
+        RCP<const Basic> e = piecewise_from_seed(strtoull(line.c_str() + sp + 1, nullptr, 10));
+        std::string st;
+        std::string text = run_printer(which, *e, st, oracle);
+        stat(which + (st == "ok" ? "_ok" : "_throws"));
+        if (st != "ok")
+            return st;
+        check_output(which, *e, "", text, oracle);
+        return encode_lines(text);
+    }
     if (line.compare(0, 4, "cat ") == 0) {
         size_t k = std::stoul(line.substr(4));
         const auto &c = catalogue();
@@ -658,10 +675,10 @@ static RCP<const Boolean> rand_rel(Rng &r, const vgen::Opts &o, int depth)
 static RCP<const Set> rand_set(Rng &r, int depth)
 {
     RCP<const Basic> x = vgen::sym(0);
-    // operands of the set operations: intervals, finite sets, reals, integers, the empty set, condition sets
-    // (Rationals / Complexes in a union do not terminate: known C27 findings)
-    static const unsigned inner[] = {0, 1, 2, 3, 6, 7};
-    switch (depth == 2 ? r.below(12) : depth == 1 ? inner[r.below(6)] : inner[r.below(6)]) {
+    // operands of the set operations: intervals, finite sets and the empty set only (the set algebra does not
+    // terminate on several combinations with Integers / Rationals / Complexes / ConditionSet: C27 findings)
+    static const unsigned inner[] = {0, 1, 0, 1, 0, 6};
+    switch (depth == 2 ? r.below(12) : inner[r.below(6)]) {
         case 0:
             return interval(integer(r.range(-5, 0)), integer(r.range(1, 6)), r.coin(), r.coin());
         case 1:
@@ -788,16 +805,9 @@ void hx_gen(Rng &r, const std::string &tier)
                 default:
                     put_all(logical_and({logical_or({a, b}), logical_xor({b, c})}), "boolean");
             }
-            PiecewiseVec v;
-            v.push_back({vgen::rand_expr(r, o, 2), a});
-            if (r.coin())
-                v.push_back({vgen::rand_expr(r, o, 1), b});
-            if (r.coin(2, 3))
-                v.push_back({vgen::rand_expr(r, o, 1), boolTrue});
-            RCP<const Basic> pw = piecewise(std::move(v));
-            put_all(pw, "piecewise");
-            if (r.coin(1, 3))
-                put_all(add(mul(integer(2), pw), x), "piecewise");
+            uint64_t seed = r.next() % 1000000007ULL;
+            for (const char *p : {"latex", "mathml", "unicode", "julia", "sbml"})
+                emit(std::string("pw ") + p + " " + std::to_string(seed), "piecewise");
         } catch (const std::exception &) {
         }
     }
@@ -810,4 +820,30 @@ void hx_gen(Rng &r, const std::string &tier)
         } catch (const std::exception &) {
         }
     }
+}
+
+static RCP<const Basic> piecewise_from_seed(uint64_t seed)
+{
+    Rng r(seed);
+    RCP<const Basic> x = vgen::sym(0);
+    vgen::Opts o;
+    o.functions = r.coin();
+    for (int tries = 0; tries < 20; tries++) {
+        try {
+            PiecewiseVec v;
+            v.push_back({vgen::rand_expr(r, o, 2), rand_rel(r, o, 1 + (int)r.below(2))});
+            if (r.coin())
+                v.push_back({vgen::rand_expr(r, o, 1), rand_rel(r, o, 1)});
+            if (r.coin(2, 3))
+                v.push_back({vgen::rand_expr(r, o, 1), boolTrue});
+            RCP<const Basic> pw = piecewise(std::move(v));
+            if (is_a<Piecewise>(*pw))
+                return r.coin(1, 3) ? add(mul(integer(2), pw), x) : pw;
+        } catch (const std::exception &) {
+        }
+    }
+    PiecewiseVec v;
+    v.push_back({x, Lt(x, vgen::sym(1))});
+    v.push_back({vgen::sym(2), boolTrue});
+    return piecewise(std::move(v));
 }
